@@ -233,6 +233,11 @@ func (fc *FnCtx) finishExit(st *State, panicking bool, ord int, scopePos token.P
 	if st.pc == "false" {
 		return
 	}
+	if !panicking && fc.contract != nil {
+		// reachability probe: a normal exit whose accumulated assumptions are contradictory proves everything
+		// (informational: dead exits are reported in the evidence, `unsat` is listed as a warning)
+		fc.probe(st, "true", "reach", fmt.Sprintf("normal exit %d of %s is reachable", ord, fc.name))
+	}
 	sig := fc.fnSig
 	if panicking && st.panick == "" {
 		st.panick = "true"
